@@ -94,11 +94,30 @@ func c01Pod(id, quota string, req map[string]int64, np, bound bool) *corev1.Pod 
 	return p
 }
 
-// hook plugin used only as a gate at the point where Reserve / Unreserve call the hook plugins
+// hook plugin used only as a gate at the point where Reserve / Unreserve call the hook plugins. ONE instance is
+// installed per manager for its whole life (the manager's hook list is not safe to change while calls are in flight);
+// a race op arms it for its pod and disarms it when its Reserve / Unreserve call has returned.
 type c01RaceHook struct {
-	pod   string
-	fire  func()
-	fired bool
+	mu    sync.Mutex
+	armed map[string]func() // pod -> what to do at the gate (once)
+	fired map[string]bool
+}
+
+func (h *c01RaceHook) arm(pod string, fire func()) {
+	h.mu.Lock()
+	defer h.mu.Unlock()
+	h.armed[pod] = fire
+	delete(h.fired, pod)
+}
+
+// disarm reports whether the gate was reached
+func (h *c01RaceHook) disarm(pod string) bool {
+	h.mu.Lock()
+	defer h.mu.Unlock()
+	delete(h.armed, pod)
+	f := h.fired[pod]
+	delete(h.fired, pod)
+	return f
 }
 
 func (h *c01RaceHook) GetKey() string { return "verif-race" }
@@ -114,9 +133,18 @@ func (h *c01RaceHook) OnPodUpdated(quotaName string, oldPod, newPod *corev1.Pod)
 	if p == nil {
 		p = oldPod
 	}
-	if p != nil && p.Name == h.pod && !h.fired {
-		h.fired = true
-		h.fire()
+	if p == nil {
+		return
+	}
+	h.mu.Lock()
+	fire := h.armed[p.Name]
+	if fire != nil {
+		delete(h.armed, p.Name)
+		h.fired[p.Name] = true
+	}
+	h.mu.Unlock()
+	if fire != nil {
+		fire()
 	}
 }
 func (h *c01RaceHook) UpdateQuotaStatus(oldQuota, newQuota *v1alpha1.ElasticQuota) *v1alpha1.ElasticQuota {
@@ -142,7 +170,18 @@ func c01NewManager() *GroupQuotaManager {
 		corev1.ResourceCPU:    *resource.NewQuantity(1<<40, resource.DecimalSI),
 		corev1.ResourceMemory: *resource.NewQuantity(1<<40, resource.DecimalSI),
 	}
-	return NewGroupQuotaManager("", false, big, big)
+	g := NewGroupQuotaManager("", false, big, big)
+	g.hookPlugins = append(g.hookPlugins, &c01RaceHook{armed: map[string]func(){}, fired: map[string]bool{}})
+	return g
+}
+
+func c01HookOf(g *GroupQuotaManager) *c01RaceHook {
+	for _, h := range g.hookPlugins {
+		if r, ok := h.(*c01RaceHook); ok {
+			return r
+		}
+	}
+	panic("c01: race hook not installed")
 }
 
 // projection of the manager's reported figures onto the spec's derived operators
@@ -237,7 +276,8 @@ func (w *c01World) apply(o c01Op) {
 		delete(w.pods, o.Pod)
 		w.mu.Unlock()
 		done := make(chan struct{})
-		hook := &c01RaceHook{pod: o.Pod, fire: func() {
+		hook := c01HookOf(w.gqm)
+		hook.arm(o.Pod, func() {
 			go func() {
 				w.gqm.OnPodDelete(old.quota, old.obj)
 				close(done)
@@ -246,15 +286,13 @@ func (w *c01World) apply(o c01Op) {
 			case <-done:
 			case <-time.After(40 * time.Millisecond): // the delete is (correctly) excluded until the call returns
 			}
-		}}
-		w.gqm.hookPlugins = append(w.gqm.hookPlugins, hook)
+		})
 		if o.Variant%2 == 0 {
 			w.gqm.ReservePod(old.quota, old.obj)
 		} else {
 			w.gqm.UnreservePod(old.quota, old.obj)
 		}
-		w.gqm.hookPlugins = w.gqm.hookPlugins[:len(w.gqm.hookPlugins)-1]
-		if !hook.fired {
+		if !hook.disarm(o.Pod) {
 			// the call was a no-op (already / not assigned): deliver the delete normally
 			w.gqm.OnPodDelete(old.quota, old.obj)
 		} else {
